@@ -161,6 +161,14 @@ def gen_cases(rng, tier):
         yield {"ops": ops}
 
 
+class BytesSub(bytes):
+    """a bytes subclass (as hexbytes.HexBytes is): accepted wherever bytes are"""
+
+
+def hexlib_sub(b, selector):
+    return BytesSub(b) if selector % 3 == 0 else b
+
+
 class Overlay(dict):
     """a copy-on-write database: a dict subclass whose reads fall back to the store of an earlier root (`__missing__`);
     writes stay in the overlay"""
@@ -224,13 +232,13 @@ def run_case(case):
         before_root, before_db = t.root_hash, dict(db)
         try:
             if kind == "set":
-                t.set(k, v)
+                t.set(hexlib_sub(k, len(v)), hexlib_sub(v, len(k)))
             elif kind == "setitem":
                 t[k] = v
             elif kind == "sete":
-                t.set(k, b"")
+                t.set(k, hexlib_sub(b"", len(k)))
             elif kind == "del":
-                t.delete(k)
+                t.delete(hexlib_sub(k, len(k) + 1))
             elif kind == "delitem":
                 del t[k]
             else:
